@@ -39,7 +39,7 @@ def main():
     every = [(name, templates.render(rule)) for _, name, rule in templates.select(ck.tier, ck.seed)]
     every += [('limits/' + k, v) for k, v in templates.limit_rules().items()]
     ck.extra['templates_optimise_sweep'] = len(every)
-    sweep = [('@optimise-sweep', every[i::6]) for i in range(6)]
+    sweep = [('@optimise-sweep', every[i::12]) for i in range(12)]
     ck.run_units(sweep + [('@cache-keys', None)] + [('@conditions', n) for n in range(1, 5)] + [(name, templates.render(rule)) for _, name, rule in tpl], run_unit)
     ck.finish('panic reachability on real solver MIR for every accepted template rule x optimiser output, documents symbolic')
 
